@@ -144,6 +144,9 @@ var errVerdict = fmt.Errorf("verdict: error")
 
 func (v *vis) Visit(n ast.Node) (ast.Visitor, error) {
 	if n == nil {
+		if v.node == 0 {
+			return nil, nil
+		}
 		v.s.log = append(v.s.log, ev{"leave", v.node})
 		if v.s.c.Verdict[v.node-1] == "posterr" {
 			return nil, errVerdict
@@ -153,6 +156,9 @@ func (v *vis) Visit(n ast.Node) (ast.Visitor, error) {
 	id, ok := v.s.id[n]
 	if !ok {
 		id = -1
+	}
+	if id == 0 {
+		return &vis{v.s, 0}, nil // pass-through node of a stretched edge
 	}
 	v.s.log = append(v.s.log, ev{"visit", id})
 	if id < 0 {
@@ -167,7 +173,11 @@ func (v *vis) Visit(n ast.Node) (ast.Visitor, error) {
 	return &vis{v.s, id}, nil
 }
 
-func buildReal(c *algoCase, rot int) (ast.Node, map[ast.Node]int) {
+// buildReal builds the case's tree from real nodes. With stretch > 0 every edge of the model tree is replaced by
+// a chain of that many pass-through nodes (unary/cast/alias nodes the visitor always descends into): for the
+// model's nodes such a chain is stuttering, so the log projected on the model's nodes must still be the
+// specification's log.
+func buildReal(c *algoCase, rot, stretch int) (ast.Node, map[ast.Node]int) {
 	kids := make([][]int, c.N+1)
 	for i := 2; i <= c.N; i++ {
 		kids[c.Parent[i-1]] = append(kids[c.Parent[i-1]], i)
@@ -177,7 +187,19 @@ func buildReal(c *algoCase, rot int) (ast.Node, map[ast.Node]int) {
 	mk = func(i int) ast.Expression {
 		var ch []ast.Expression
 		for _, k := range kids[i] {
-			ch = append(ch, mk(k))
+			e := mk(k)
+			for j := 0; j < stretch; j++ {
+				switch j % 3 {
+				case 0:
+					e = &ast.UnaryExpression{Operator: ast.Minus, Expr: e}
+				case 1:
+					e = &ast.CastExpression{Expr: e, Type: "INT"}
+				default:
+					e = &ast.AliasedExpression{Expr: e, Alias: "x"}
+				}
+				id[e] = 0 // pass-through
+			}
+			ch = append(ch, e)
 		}
 		var n ast.Expression
 		r := (rot + i) % 4
@@ -237,8 +259,15 @@ func algo(tier string) {
 		if err := json.Unmarshal([]byte(line), &c); err != nil {
 			core.Fatalf("bad algo case %q: %v", line, err)
 		}
-		for rot := 0; rot < 2; rot++ {
-			root, id := buildReal(&c, ci+rot)
+		for rot := 0; rot < 3; rot++ {
+			stretch := 0
+			if rot == 2 {
+				if c.N < 2 || (ci%4 != 0 && tier != "thorough") {
+					continue
+				}
+				stretch = []int{150, 700, 2500}[ci%3]
+			}
+			root, id := buildReal(&c, ci+rot, stretch)
 			st := &walkState{c: &c, id: id}
 			var werr error
 			func() {
@@ -261,7 +290,7 @@ func algo(tier string) {
 			}
 			if !sameLog(st.log, c.Log) || (werr != nil) != c.Failed || (werr != nil && werr != errVerdict) {
 				run.Violate(core.Violation{Sig: "walk-log-differs|" + firstDiff(st.log, c.Log), Clause: "walking visits every node that is part of the tree and nothing that is not (traversal follows Walk.tla)",
-					Case: map[string]any{"kind": "algo", "case": c, "rot": ci + rot}, Observe: map[string]any{"log": st.log, "err": fmt.Sprint(werr)}, Expect: c.Log})
+					Case: map[string]any{"kind": "algo", "case": c, "rot": ci + rot, "stretch": stretch}, Observe: map[string]any{"log": st.log, "err": fmt.Sprint(werr)}, Expect: c.Log})
 			}
 			// Inspect: go/prune verdicts only
 			if !c.Failed && !hasVerdict(&c, "posterr") {
@@ -269,11 +298,17 @@ func algo(tier string) {
 				var stack []int
 				ast.Inspect(root, func(n ast.Node) bool {
 					if n == nil {
-						log = append(log, ev{"leave", stack[len(stack)-1]})
+						if top := stack[len(stack)-1]; top != 0 {
+							log = append(log, ev{"leave", top})
+						}
 						stack = stack[:len(stack)-1]
 						return false
 					}
 					i := id[n]
+					if i == 0 {
+						stack = append(stack, 0)
+						return true
+					}
 					log = append(log, ev{"visit", i})
 					if c.Verdict[i-1] == "go" {
 						stack = append(stack, i)
@@ -284,7 +319,7 @@ func algo(tier string) {
 				run.Eval(1)
 				if !sameLog(log, c.Log) {
 					run.Violate(core.Violation{Sig: "inspect-log-differs|" + firstDiff(log, c.Log), Clause: "inspection visits every node that is part of the tree and nothing that is not",
-						Case: map[string]any{"kind": "algo-inspect", "case": c, "rot": ci + rot}, Observe: log, Expect: c.Log})
+						Case: map[string]any{"kind": "algo-inspect", "case": c, "rot": ci + rot, "stretch": stretch}, Observe: log, Expect: c.Log})
 				}
 			}
 		}
@@ -293,6 +328,13 @@ func algo(tier string) {
 		}
 	}
 	run.Traces(int64(len(r.Cases)))
+}
+
+func firstN(s string, n int) string {
+	if len(s) > n {
+		return s[:n] + "..."
+	}
+	return s
 }
 
 func hasVerdict(c *algoCase, v string) bool {
@@ -663,8 +705,55 @@ func reach(root reflect.Value) []rnode {
 	return out
 }
 
+// pumped returns statements whose trees are far deeper or wider than any model statement: operator chains (built
+// by the parser in a loop, so deeper than its recursion limit), long lists, many joins, set-operation chains.
+func pumped(tier string) []gram.Input {
+	var out []gram.Input
+	rep := func(n int, f func(i int) string, sep string) string {
+		var b strings.Builder
+		for i := 0; i < n; i++ {
+			if i > 0 {
+				b.WriteString(sep)
+			}
+			b.WriteString(f(i))
+		}
+		return b.String()
+	}
+	sizes := []int{60, 450, 1500}
+	if tier == "thorough" {
+		sizes = append(sizes, 6000)
+	}
+	for _, n := range sizes {
+		d := fmt.Sprintf("pumped:%d:", n)
+		out = append(out,
+			gram.Input{Text: "SELECT a FROM t WHERE a IN (SELECT k FROM s) OR " + rep(n, func(i int) string { return fmt.Sprintf("a = %d", i) }, " OR "), Desc: d + "or-chain"},
+			gram.Input{Text: "SELECT a FROM t WHERE " + rep(n, func(i int) string { return fmt.Sprintf("c%d > %d", i, i) }, " AND ") + " AND EXISTS (SELECT 1 FROM s)", Desc: d + "and-chain"},
+			gram.Input{Text: "SELECT (SELECT MAX(k) FROM s) + " + rep(n, func(i int) string { return fmt.Sprintf("c%d", i) }, " + ") + " FROM t", Desc: d + "plus-chain"},
+			gram.Input{Text: "SELECT " + rep(n, func(i int) string { return fmt.Sprintf("n%d", i) }, " || ") + " FROM t", Desc: d + "concat-chain"},
+			gram.Input{Text: "SELECT a FROM t WHERE a IN (" + rep(n, func(i int) string { return fmt.Sprint(i) }, ", ") + ")", Desc: d + "in-list"},
+			gram.Input{Text: "SELECT " + rep(n, func(i int) string { return fmt.Sprintf("c%d AS x%d", i, i) }, ", ") + " FROM t", Desc: d + "select-list"},
+			gram.Input{Text: "SELECT CASE " + rep(n, func(i int) string { return fmt.Sprintf("WHEN a = %d THEN %d", i, i) }, " ") + " ELSE 0 END FROM t", Desc: d + "case-whens"},
+			gram.Input{Text: "INSERT INTO t (a, b) VALUES " + rep(n, func(i int) string { return fmt.Sprintf("(%d, 'v%d')", i, i) }, ", "), Desc: d + "values-rows"},
+		)
+		if n <= 450 {
+			out = append(out,
+				gram.Input{Text: "SELECT a FROM t0 " + rep(n, func(i int) string { return fmt.Sprintf("JOIN t%d ON t%d.k = t0.k", i+1, i+1) }, " "), Desc: d + "joins"},
+				gram.Input{Text: rep(n, func(i int) string { return fmt.Sprintf("SELECT c%d FROM t%d", i, i) }, " UNION ALL "), Desc: d + "union-chain"})
+		}
+	}
+	// nesting up to what the parser accepts
+	for _, n := range []int{20, 45, 90} {
+		out = append(out,
+			gram.Input{Text: "SELECT " + strings.Repeat("(", n) + "a" + strings.Repeat(")", n) + " FROM t", Desc: fmt.Sprintf("pumped:%d:parens", n)},
+			gram.Input{Text: "SELECT a FROM t WHERE a IN " + strings.Repeat("(SELECT a FROM t WHERE a IN ", n) + "(1)" + strings.Repeat(")", n), Desc: fmt.Sprintf("pumped:%d:subqueries", n)},
+			gram.Input{Text: "SELECT " + strings.Repeat("f(", n) + "a" + strings.Repeat(")", n) + " FROM t", Desc: fmt.Sprintf("pumped:%d:calls", n)})
+	}
+	return out
+}
+
 func wholeTrees(tier string) {
-	inputs := gram.Inputs(run, tier)
+	inputs := append(pumped(tier), gram.Inputs(run, tier)...)
+	pumpedParsed := 0
 	parsed := 0
 	for ii, in := range inputs {
 		tree, err := gosqlx.Parse(in.Text)
@@ -672,9 +761,13 @@ func wholeTrees(tier string) {
 			continue
 		}
 		parsed++
+		if strings.HasPrefix(in.Desc, "pumped:") {
+			pumpedParsed++
+		}
 		run.Eval(1)
 		want := reach(reflect.ValueOf(tree))
 		visited := map[nkey]int{}
+		alive := map[nkey]reflect.Value{} // keeps copies handed out by Children() alive and readable
 		var visitedVals []reflect.Value
 		var nilTypes []string
 		panicked := ""
@@ -695,6 +788,7 @@ func wholeTrees(tier string) {
 						return false
 					}
 					visited[nkey{rv.Pointer(), rv.Type().Elem()}]++
+					alive[nkey{rv.Pointer(), rv.Type().Elem()}] = rv
 				} else {
 					visitedVals = append(visitedVals, rv)
 				}
@@ -704,7 +798,7 @@ func wholeTrees(tier string) {
 		if len(want) >= 6 {
 			run.Nontrivial(in.Text)
 		}
-		cse := map[string]any{"kind": "tree", "sql": in.Text, "from": in.Desc}
+		cse := map[string]any{"kind": "tree", "sql": firstN(in.Text, 600), "from": in.Desc}
 		if panicked != "" {
 			run.Violate(core.Violation{Sig: "inspect-panics|" + core.CrashLine(panicked), Clause: "walking a parsed tree visits every node", Case: cse, Observe: panicked})
 			continue
@@ -734,7 +828,7 @@ func wholeTrees(tier string) {
 			if !ok {
 				for k := range visited {
 					if k.t == w.key.t && !wantKeys[k] {
-						if reflect.DeepEqual(reflect.NewAt(k.t, ptrOf(k.p)).Elem().Interface(), w.val.Interface()) {
+						if reflect.DeepEqual(alive[k].Elem().Interface(), w.val.Interface()) {
 							ok = true
 							break
 						}
@@ -756,7 +850,7 @@ func wholeTrees(tier string) {
 			}
 			// a pointer to a copy of a value node is fine when the copy equals a node of the tree
 			ok := false
-			kv := reflect.NewAt(k.t, ptrOf(k.p)).Elem().Interface()
+			kv := alive[k].Elem().Interface()
 			for _, w := range want {
 				if w.key.t == k.t && reflect.DeepEqual(kv, w.val.Interface()) {
 					ok = true
@@ -765,7 +859,7 @@ func wholeTrees(tier string) {
 			}
 			if !ok {
 				run.Violate(core.Violation{Sig: "visited-foreign|" + k.t.Name(), Clause: "traversal visits nothing that is not part of the tree", Case: cse,
-					Observe: fmt.Sprintf("%+v", kv)})
+					Observe: firstN(fmt.Sprintf("%+v", kv), 300)})
 			}
 		}
 		if ii%1500 == 7 {
@@ -774,6 +868,10 @@ func wholeTrees(tier string) {
 		ast.ReleaseAST(tree)
 	}
 	run.Extra["statements_parsed"] = parsed
+	run.Extra["pumped_statements_parsed"] = pumpedParsed
+	if pumpedParsed < 20 {
+		core.Fatalf("only %d pumped statements parsed", pumpedParsed)
+	}
 	if parsed*10 < len(inputs)*8 {
 		core.Fatalf("only %d of %d inputs parsed", parsed, len(inputs))
 	}
